@@ -28,25 +28,39 @@ pub fn eidx(e: &str) -> usize {
 }
 
 // ---------------------------------------------------------------- tokens
+/// Token names of the specification.  "T" / "C" / "S" are the tokens drawn by the 0.6 acceptor / the 0.7 client /
+/// the 0.7 server in their first session, "T2", "C3", ... those of later sessions (Draw(e) of ConnSys.tla).
 pub fn tok_bytes(name: &str) -> Option<[u8; 4]> {
     Some(match name {
         "FF" => [0xff; 4],
         "Z0" => [0; 4],
-        "T" => [0x54, 0x11, 0x22, 0x33],
-        "C" => [0x43, 0x11, 0x22, 0x33],
-        "S" => [0x53, 0x11, 0x22, 0x33],
         "W" => [0x57, 0x0b, 0xad, 0x01],
-        _ => return None,
+        _ => {
+            let b = name.as_bytes();
+            if b.is_empty() || !matches!(b[0], b'T' | b'C' | b'S') {
+                return None;
+            }
+            let n: u8 = if b.len() == 1 { 1 } else { name[1..].parse().ok().filter(|&n| n >= 2 && n <= 9)? };
+            [b[0], 0x10 + n, 0x22, 0x33]
+        }
     })
+}
+pub fn session_token(letter: &str, session: usize) -> [u8; 4] {
+    let name = if session <= 1 { letter.to_string() } else { format!("{}{}", letter, session) };
+    tok_bytes(&name).unwrap_or([letter.as_bytes()[0], 0x1f, 0x22, 0x33])
 }
 pub fn tok_name(t: Option<[u8; 4]>) -> String {
     match t {
         None => "no".into(),
         Some(b) => {
-            for n in ["FF", "Z0", "T", "C", "S", "W"] {
+            for n in ["FF", "Z0", "W"] {
                 if tok_bytes(n) == Some(b) {
                     return n.into();
                 }
+            }
+            if matches!(b[0], b'T' | b'C' | b'S') && b[2] == 0x22 && b[3] == 0x33 && (0x11..=0x19).contains(&b[1]) {
+                let l = (b[0] as char).to_string();
+                return if b[1] == 0x11 { l } else { format!("{}{}", l, b[1] - 0x10) };
             }
             format!("?{}", vh_common::hex(&b))
         }
@@ -110,6 +124,9 @@ pub struct Cb {
     pub draws: u32,
     /// fault injection: the send callback reports an error (nothing is sent)
     pub fail_sends: bool,
+    /// fault injection: the `fail_at`-th datagram handed to the callback since `calls` was reset is refused (0: none)
+    pub fail_at: u32,
+    pub calls: u32,
 }
 impl Cb {
     fn draw(&mut self, buffer: &mut [u8]) {
@@ -138,7 +155,8 @@ impl c6::Callback for Cb {
         self.draw(buffer)
     }
     fn send(&mut self, buffer: &[u8]) -> Result<(), Never> {
-        if self.fail_sends {
+        self.calls += 1;
+        if self.fail_sends || self.calls == self.fail_at {
             return Err(Never);
         }
         self.out.push(buffer.to_vec());
@@ -154,7 +172,8 @@ impl c7::Callback for Cb {
         self.draw(buffer)
     }
     fn send(&mut self, buffer: &[u8]) -> Result<(), Never> {
-        if self.fail_sends {
+        self.calls += 1;
+        if self.fail_sends || self.calls == self.fail_at {
             return Err(Never);
         }
         self.out.push(buffer.to_vec());
@@ -207,6 +226,28 @@ pub struct Outcome {
     pub outs: Vec<Value>,
     pub warnings: Vec<String>,
 }
+impl Outcome {
+    /// Class of the warning(s) the call reported, in the vocabulary of Conn.tla ("-": none).
+    pub fn warn_class(&self) -> String {
+        match self.warnings.len() {
+            0 => "-".to_string(),
+            1 => {
+                let w = &self.warnings[0];
+                for k in ["ConnlessTokenMismatch", "ConnlessResponseTokenMismatch", "TokenMismatch", "Unexpected"] {
+                    if w == k {
+                        return k.to_string();
+                    }
+                }
+                if w.starts_with("Read(") {
+                    "Read".to_string()
+                } else {
+                    format!("other: {}", w)
+                }
+            }
+            n => format!("{} warnings: {}", n, self.warnings.join(", ")),
+        }
+    }
+}
 
 static ESTABLISHED: std::sync::Mutex<Option<(Mode, World)>> = std::sync::Mutex::new(None);
 
@@ -225,6 +266,8 @@ pub struct World {
     pub stable: bool,
     /// well-formedness problems of anything ever sent (C04), as (what, hex)
     pub malformed: Vec<String>,
+    /// session boundaries: lengths of sub[e] / del[e] at every reset() of e
+    pub bnd: [Vec<(usize, usize)>; 2],
 }
 
 fn ms(now: u64, t: Option<u64>) -> i64 {
@@ -256,6 +299,7 @@ impl World {
             answered: false,
             stable: false,
             malformed: Vec::new(),
+            bnd: Default::default(),
         };
         for e in 0..2 {
             // the random source yields the two reserved values first: the library must redraw
@@ -295,6 +339,7 @@ impl World {
             answered: self.answered,
             stable: self.stable,
             malformed: self.malformed.clone(),
+            bnd: self.bnd.clone(),
         }
     }
 
@@ -434,11 +479,13 @@ impl World {
         res
     }
 
-    fn finish(&mut self, e: usize, pre: &Value, r: Result<(), String>, res_ok: &str) -> Outcome {
+    /// `r`: Ok(true) the call returned Ok, Ok(false) it returned the error of the send callback, Err: it panicked
+    fn finish(&mut self, e: usize, pre: &Value, r: Result<bool, String>) -> Outcome {
         let outs = self.collect(e, pre);
         Outcome {
             res: match r {
-                Ok(()) => res_ok.to_string(),
+                Ok(true) => "ok".to_string(),
+                Ok(false) => "callback".to_string(),
                 Err(m) => format!("panic: {} @ {}", m, vh_common::last_panic_location()),
             },
             evs: vec![],
@@ -452,27 +499,24 @@ impl World {
         self.cb[e].now_us = self.now_us;
         let cb = &mut self.cb[e];
         let r = match &mut self.ep[e] {
-            Conn::V6(c) => catch(|| {
-                let _ = c.connect(cb);
-            }),
-            Conn::V7(c) => catch(|| {
-                let _ = c.connect(cb);
-            }),
+            Conn::V6(c) => catch(|| c.connect(cb).is_ok()),
+            Conn::V7(c) => catch(|| c.connect(cb).is_ok()),
         };
-        self.finish(e, &pre, r, "ok")
+        self.finish(e, &pre, r)
     }
     pub fn send(&mut self, e: usize, v: bool, sz: usize, id: u32) -> Outcome {
         let pre = self.proj_ep(e);
         let data = content(e, id, sz);
         let res = self.raw_send(e, &data, v);
-        if res == "ok" {
+        // a send whose flush failed ("callback") has queued the chunk all the same: it counts as submitted
+        if res == "ok" || res == "callback" {
             if v {
                 self.sub[e].push(id as i64);
             } else if !self.snv[e].contains(&(id as i64)) {
                 self.snv[e].push(id as i64);
             }
         }
-        let mut o = self.finish(e, &pre, Ok(()), "ok");
+        let mut o = self.finish(e, &pre, Ok(true));
         o.res = res;
         o
     }
@@ -500,7 +544,7 @@ impl World {
         if res == "ok" && !self.scl[e].contains(&(id as i64)) {
             self.scl[e].push(id as i64);
         }
-        let mut o = self.finish(e, &pre, Ok(()), "ok");
+        let mut o = self.finish(e, &pre, Ok(true));
         o.res = res;
         o
     }
@@ -509,28 +553,20 @@ impl World {
         self.cb[e].now_us = self.now_us;
         let cb = &mut self.cb[e];
         let r = match &mut self.ep[e] {
-            Conn::V6(c) => catch(|| {
-                let _ = c.flush(cb);
-            }),
-            Conn::V7(c) => catch(|| {
-                let _ = c.flush(cb);
-            }),
+            Conn::V6(c) => catch(|| c.flush(cb).is_ok()),
+            Conn::V7(c) => catch(|| c.flush(cb).is_ok()),
         };
-        self.finish(e, &pre, r, "ok")
+        self.finish(e, &pre, r)
     }
     pub fn tick(&mut self, e: usize) -> Outcome {
         let pre = self.proj_ep(e);
         self.cb[e].now_us = self.now_us;
         let cb = &mut self.cb[e];
         let r = match &mut self.ep[e] {
-            Conn::V6(c) => catch(|| {
-                let _ = c.tick(cb);
-            }),
-            Conn::V7(c) => catch(|| {
-                let _ = c.tick(cb);
-            }),
+            Conn::V6(c) => catch(|| c.tick(cb).is_ok()),
+            Conn::V7(c) => catch(|| c.tick(cb).is_ok()),
         };
-        self.finish(e, &pre, r, "ok")
+        self.finish(e, &pre, r)
     }
     pub fn disconnect(&mut self, e: usize, r: usize) -> Outcome {
         let pre = self.proj_ep(e);
@@ -538,14 +574,57 @@ impl World {
         self.cb[e].now_us = self.now_us;
         let cb = &mut self.cb[e];
         let res = match &mut self.ep[e] {
-            Conn::V6(c) => catch(|| {
-                let _ = c.disconnect(cb, &reason);
-            }),
-            Conn::V7(c) => catch(|| {
-                let _ = c.disconnect(cb, &reason);
-            }),
+            Conn::V6(c) => catch(|| c.disconnect(cb, &reason).is_ok()),
+            Conn::V7(c) => catch(|| c.disconnect(cb, &reason).is_ok()),
         };
-        self.finish(e, &pre, res, "ok")
+        self.finish(e, &pre, res)
+    }
+    /// Connection::reset on a closed endpoint: the same object starts a new session (new tokens will be drawn).
+    pub fn creset(&mut self, e: usize) -> Outcome {
+        let r = match &mut self.ep[e] {
+            Conn::V6(c) => catch(|| c.reset()),
+            Conn::V7(c) => catch(|| c.reset()),
+        };
+        self.bnd[e].push((self.sub[e].len(), self.del[e].len()));
+        if e == 0 {
+            self.ready = 0;
+        }
+        let session = self.bnd[e].len() + 1;
+        let letter = if self.mode.v7 { if e == 0 { "C" } else { "S" } } else { "T" };
+        self.cb[e].token = session_token(letter, session);
+        self.cb[e].draws = 0;
+        Outcome {
+            res: match r {
+                Ok(()) => "ok".to_string(),
+                Err(m) => format!("panic: {} @ {}", m, vh_common::last_panic_location()),
+            },
+            ..Default::default()
+        }
+    }
+    /// The accepting application replaces its (throw-away) pending connection by Connection::new_accept_token
+    /// with the token that connection handed out (0.6).
+    pub fn accept_token(&mut self, e: usize) -> Outcome {
+        self.cb[e].now_us = self.now_us;
+        let tok = match &self.ep[e] {
+            Conn::V6(c) => c.verif_state().token.flatten(),
+            Conn::V7(_) => None,
+        };
+        let tok = match tok {
+            Some(t) => t,
+            None => return Outcome { res: "skipped".into(), ..Default::default() },
+        };
+        let cb = &mut self.cb[e];
+        let r = catch(|| c6::Connection::new_accept_token(cb, p6::Token(tok)));
+        Outcome {
+            res: match r {
+                Ok(c) => {
+                    self.ep[e] = Conn::V6(c);
+                    "ok".to_string()
+                }
+                Err(m) => format!("panic: {} @ {}", m, vh_common::last_panic_location()),
+            },
+            ..Default::default()
+        }
     }
     pub fn advance(&mut self, d_ms: u64) -> Outcome {
         self.now_us += d_ms * 1000;
@@ -595,7 +674,8 @@ impl World {
         let r = match &mut self.ep[p] {
             Conn::V6(c) => catch(|| {
                 let mut w: Vec<c6::Warning> = Vec::new();
-                let (pkt, _res) = c.feed(cb, &mut w, bytes, &mut buf[..]);
+                let (pkt, res) = c.feed(cb, &mut w, bytes, &mut buf[..]);
+                let cb_ok = res.is_ok();
                 let evs: Vec<Value> = pkt
                     .map(|ch| match ch {
                         c6::ReceiveChunk::Connless(d) => json!({"e": "connless", "id": id_of(from, d), "sz": d.len()}),
@@ -604,11 +684,12 @@ impl World {
                         c6::ReceiveChunk::Disconnect(r) => json!({"e": "disc", "r": if r == &reason(r.len())[..] { r.len() as i64 } else { -2 }}),
                     })
                     .collect();
-                (evs, w.iter().map(|x| format!("{:?}", x)).collect::<Vec<_>>())
+                (evs, w.iter().map(|x| format!("{:?}", x)).collect::<Vec<_>>(), cb_ok)
             }),
             Conn::V7(c) => catch(|| {
                 let mut w: Vec<c7::Warning> = Vec::new();
-                let (pkt, _res) = c.feed(cb, &mut w, bytes, &mut buf[..]);
+                let (pkt, res) = c.feed(cb, &mut w, bytes, &mut buf[..]);
+                let cb_ok = res.is_ok();
                 let evs: Vec<Value> = pkt
                     .map(|ch| match ch {
                         c7::ReceiveChunk::Connless(d) => json!({"e": "connless", "id": id_of(from, d), "sz": d.len()}),
@@ -617,13 +698,13 @@ impl World {
                         c7::ReceiveChunk::Disconnect(r) => json!({"e": "disc", "r": if r == &reason(r.len())[..] { r.len() as i64 } else { -2 }}),
                     })
                     .collect();
-                (evs, w.iter().map(|x| format!("{:?}", x)).collect::<Vec<_>>())
+                (evs, w.iter().map(|x| format!("{:?}", x)).collect::<Vec<_>>(), cb_ok)
             }),
         };
         let (evs, res) = match r {
-            Ok((evs, w)) => {
+            Ok((evs, w, cb_ok)) => {
                 warnings = w;
-                (evs, "ok".to_string())
+                (evs, if cb_ok { "ok".to_string() } else { "callback".to_string() })
             }
             Err(m) => (vec![], format!("panic: {} @ {}", m, vh_common::last_panic_location())),
         };
@@ -877,6 +958,8 @@ impl World {
             "del": {"c": self.del[0], "s": self.del[1]},
             "ready": self.ready,
             "answered": self.answered,
+            "bnd": {"c": self.bnd[0].iter().map(|b| json!({"s": b.0, "d": b.1})).collect::<Vec<_>>(),
+                    "s": self.bnd[1].iter().map(|b| json!({"s": b.0, "d": b.1})).collect::<Vec<_>>()},
             "stable": self.stable,
             "nt": {"c": self.needs_tick_ms(0), "s": self.needs_tick_ms(1)},
         })
@@ -976,17 +1059,41 @@ impl World {
         let e = || eidx(act["e"].as_str().unwrap_or("c"));
         // "callers only make calls the state permits": a schedule step whose precondition does not hold on
         // the real object (the code deviated earlier) is skipped, not executed
-        if matches!(a, "connect" | "send" | "connless" | "flush" | "disconnect") {
-            let st = self.proj_ep(e())["st"].as_str().unwrap_or("").to_string();
+        if matches!(a, "connect" | "send" | "connless" | "flush" | "disconnect" | "creset" | "accepttoken") {
+            let p = self.proj_ep(e());
+            let st = p["st"].as_str().unwrap_or("").to_string();
             let ok = match a {
                 "connect" => st == "Unc",
                 "disconnect" => st != "Disc" && (self.mode.v7 || st != "Unc"),
+                "creset" => st == "Disc",
+                "accepttoken" => !self.mode.v7 && st == "Pend" && p["tok"] != json!("no"),
                 _ => st == "Onl",
             };
             if !ok {
                 return Outcome { res: "skipped".into(), ..Default::default() };
             }
         }
+        let from = || eidx(act["from"].as_str().unwrap_or("c"));
+        // fault injection: the k-th datagram this call hands to the send callback of the endpoint concerned is refused
+        let k = act["k"].as_u64().unwrap_or(0) as u32;
+        let target = match a {
+            "deliver" | "dup" => Some(1 - from()),
+            "connect" | "send" | "connless" | "flush" | "tick" | "disconnect" => Some(e()),
+            _ => None,
+        };
+        if let Some(t) = target {
+            self.cb[t].calls = 0;
+            self.cb[t].fail_at = k;
+        }
+        let o = self.apply_inner(act);
+        if let Some(t) = target {
+            self.cb[t].fail_at = 0;
+        }
+        o
+    }
+    fn apply_inner(&mut self, act: &Value) -> Outcome {
+        let a = act["a"].as_str().unwrap_or("");
+        let e = || eidx(act["e"].as_str().unwrap_or("c"));
         let from = || eidx(act["from"].as_str().unwrap_or("c"));
         match a {
             "connect" => self.connect(e()),
@@ -995,6 +1102,8 @@ impl World {
             "flush" => self.flush(e()),
             "tick" => self.tick(e()),
             "disconnect" => self.disconnect(e(), act["r"].as_u64().unwrap() as usize),
+            "creset" => self.creset(e()),
+            "accepttoken" => self.accept_token(e()),
             "advance" => self.advance(act["d"].as_u64().unwrap()),
             "deliver" => self.deliver(from(), act["i"].as_u64().unwrap() as usize - 1, false),
             "dup" => self.deliver(from(), act["i"].as_u64().unwrap() as usize - 1, true),
